@@ -211,3 +211,173 @@ func TestZZReplay(t *testing.T) {
 		},
 	})
 }
+
+func strVal(v string) string {
+	if strings.HasPrefix(v, "str:") {
+		return strings.TrimPrefix(v, "str:")
+	}
+	return strings.ReplaceAll(v, "Str!val!", "s")
+}
+
+func init() {
+	// registerReplica: election loop / leader preconditions (C09)
+	replayTemplates = append(replayTemplates, replayTemplate{
+		match: func(o *Obligation) bool {
+			return o.Fn == "controller.Controller.registerReplica" && (strings.HasPrefix(o.Kind, "inv#2") || strings.HasPrefix(o.Kind, "callpre:SignalToAdd"))
+		},
+		pkg: "controller",
+		gen: func(o *Obligation, vals map[string]string) (string, bool) {
+			reg := map[string]string{}
+			for _, f := range []string{"Address", "UUID", "RepType", "RepState"} {
+				reg[f] = strVal(vals["register."+f])
+			}
+			rev, ok := intVal(vals, "register.RevCount")
+			if !ok {
+				return "", false
+			}
+			// entries of c.RegisteredReplicas the model knows about
+			type ent struct{ key, uuid, state string; rev int64 }
+			seen := map[string]bool{}
+			var ents []ent
+			var ks []string
+			for k := range vals {
+				if strings.HasPrefix(k, "c.RegisteredReplicas@here[") && strings.HasSuffix(k, "].in") && vals[k] == "true" {
+					ks = append(ks, strings.TrimSuffix(k, ".in"))
+				}
+			}
+			sortStrings(ks)
+			for _, pre := range ks {
+				inner := pre[len("c.RegisteredReplicas@here[") : len(pre)-1]
+				key := strVal(vals[inner])
+				if key == "" || seen[key] || key == reg["Address"] {
+					continue
+				}
+				seen[key] = true
+				r, _ := intVal(vals, pre+".RevCount")
+				ents = append(ents, ent{key, strVal(vals[pre+".UUID"]), strVal(vals[pre+".RepState"]), r})
+			}
+			if len(ents) == 0 {
+				return "", false
+			}
+			var pre strings.Builder
+			for _, e := range ents {
+				uuid := e.uuid
+				if uuid == "" {
+					uuid = "u-" + e.key
+				}
+				fmt.Fprintf(&pre, "\t\tc.RegisteredReplicas[%q] = types.RegReplica{Address: %q, UUID: %q, RevCount: %d, RepState: %q}\n", e.key, e.key, uuid, e.rev, e.state)
+			}
+			uuid := reg["UUID"]
+			if uuid == "" {
+				uuid = "u-reg"
+			}
+			body := fmt.Sprintf(`
+type zzFactory struct{ signals [][2]string }
+
+func (f *zzFactory) Create(address string) (types.Backend, error) { return &zzBackend{name: address}, nil }
+func (f *zzFactory) SignalToAdd(a, action string) error               { f.signals = append(f.signals, [2]string{a, action}); return nil }
+func (f *zzFactory) VerifyReplicaAlive(string) bool                  { return true }
+
+func TestZZReplay(t *testing.T) {
+	for try := 0; try < 40; try++ { // map iteration order varies
+		f := &zzFactory{}
+		c := NewController(WithRF(3), WithFrontend(zzFrontend{}, ""), WithBackend(f))
+%s
+		reg := types.RegReplica{Address: %q, UUID: %q, RevCount: %d, RepType: %q, RepState: %q}
+		if err := c.registerReplica(reg); err != nil {
+			t.Fatalf("registerReplica: %%v", err)
+		}
+		for _, s := range f.signals {
+			if s[1] != "start" {
+				continue
+			}
+			picked, ok := c.RegisteredReplicas[s[0]]
+			bad := !ok || picked.RepState == "rebuilding"
+			for _, r := range c.RegisteredReplicas {
+				if r.RepState != "rebuilding" && r.RevCount > picked.RevCount {
+					bad = true
+				}
+			}
+			if bad {
+				t.Fatalf("REPLAY-REPRODUCED: start signalled to %%q (%%+v) although the registered non-rebuilding replicas are %%+v", s[0], picked, c.RegisteredReplicas)
+			}
+		}
+	}
+	t.Log("REPLAY-NOT-REPRODUCED")
+}
+`, pre.String(), reg["Address"], uuid, rev, reg["RepType"], reg["RepState"])
+			return ctlMock + body, true
+		},
+	})
+}
+
+func sortStrings(xs []string) {
+	for i := 1; i < len(xs); i++ {
+		for j := i; j > 0 && xs[j] < xs[j-1]; j-- {
+			xs[j], xs[j-1] = xs[j-1], xs[j]
+		}
+	}
+}
+
+func init() {
+	// Start: status part of the lock invariant at the error exits
+	replayTemplates = append(replayTemplates, replayTemplate{
+		match: func(o *Obligation) bool {
+			return o.Fn == "controller.Controller.Start" && strings.HasPrefix(o.Kind, "lockinv.status")
+		},
+		pkg: "controller",
+		gen: func(o *Obligation, vals map[string]string) (string, bool) {
+			rf, ok := intVal(vals, "c.ReplicationFactor")
+			if !ok || rf < 1 || rf > 64 {
+				rf = 1
+			}
+			// which exit: ret#5 = GetRevisionCounter fails after the replicas were added; ret#4 = a later address fails to attach
+			failCounter := strings.Contains(o.Key, "ret#5")
+			body := fmt.Sprintf(`
+type zzStartBackend struct {
+	zzBackend
+	failCounter bool
+}
+
+func (b *zzStartBackend) GetRevisionCounter() (int64, error) {
+	if b.failCounter {
+		return 0, fmt.Errorf("injected GetRevisionCounter failure")
+	}
+	return 1, nil
+}
+
+type zzStartFactory struct{ n int; failCounter bool }
+
+func (f *zzStartFactory) Create(address string) (types.Backend, error) {
+	f.n++
+	if !f.failCounter && f.n == 2 {
+		return nil, fmt.Errorf("injected Create failure for the second address")
+	}
+	return &zzStartBackend{zzBackend: zzBackend{name: address, monitor: make(types.MonitorChannel, 2)}, failCounter: f.failCounter}, nil
+}
+func (f *zzStartFactory) SignalToAdd(a, action string) error { return nil }
+func (f *zzStartFactory) VerifyReplicaAlive(string) bool    { return true }
+
+func TestZZReplay(t *testing.T) {
+	f := &zzStartFactory{failCounter: %v}
+	c := NewController(WithRF(%d), WithFrontend(zzFrontend{}, ""), WithBackend(f))
+	c.MaxRevReplica = "10.0.0.1"
+	err := c.Start("tcp://10.0.0.1:9502", "tcp://10.0.0.2:9502")
+	rw := 0
+	for _, r := range c.replicas {
+		if r.Mode == types.RW {
+			rw++
+		}
+	}
+	wantRO := rw < (c.ReplicationFactor+c.quorumReplicaCount)/2+1
+	t.Logf("Start err=%%v; replicas=%%+v RO=%%v RWcount=%%d (actual RW entries %%d, read-only should be %%v)", err, c.replicas, c.ReadOnly, c.RWReplicaCount, rw, wantRO)
+	if err != nil && len(c.replicas) > 0 && (c.RWReplicaCount != rw || c.ReadOnly != wantRO) {
+		t.Fatalf("REPLAY-REPRODUCED: Start failed and released the lock with the reported RW count / read-only status disagreeing with the replica list")
+	}
+	t.Log("REPLAY-NOT-REPRODUCED")
+}
+`, failCounter, rf)
+			return ctlMock + body, true
+		},
+	})
+}
